@@ -969,3 +969,43 @@ Proof.
   unfold json_text. destruct (json_objects rows) as [objs|]; cbn [bind]; [|discriminate].
   intros [= <-]. exists objs. split; [reflexivity|apply json_roundtrip].
 Qed.
+
+(* ================================================================== a value-level cache in front of an encoder *)
+Lemma memo_find_sound keq enc c v x :
+  (forall a b, keq a b = true -> enc a = enc b) ->
+  cache_sound enc c -> memo_find keq v c = Some x -> x = enc v.
+Proof.
+  intros Hk. induction c as [|[k y] r IH]; intros Hs H; cbn [memo_find] in H; [discriminate|].
+  destruct (keq k v) eqn:E.
+  - inversion H; subst. rewrite <- (Hk _ _ E). apply Hs. left; reflexivity.
+  - apply IH; [|exact H]. intros k' x' Hin. apply Hs. right; exact Hin.
+Qed.
+
+Lemma memo_run_faithful keq enc evict :
+  (forall a b, keq a b = true -> enc a = enc b) ->
+  (forall c, incl (evict c) c) ->
+  forall vs c, cache_sound enc c ->
+    fst (memo_run keq enc evict c vs) = map enc vs /\ cache_sound enc (snd (memo_run keq enc evict c vs)).
+Proof.
+  intros Hk He. induction vs as [|v r IH]; intros c Hs; cbn [memo_run map].
+  - split; [reflexivity|exact Hs].
+  - unfold memo_cell. destruct (memo_find keq v c) eqn:F.
+    + destruct (memo_run keq enc evict c r) as [xs c2] eqn:R.
+      specialize (IH c Hs). rewrite R in IH. cbn [fst snd] in *. destruct IH as [I1 I2].
+      split; [|exact I2]. rewrite (memo_find_sound _ _ _ _ _ Hk Hs F), I1. reflexivity.
+    + assert (Hs1 : cache_sound enc (evict ((v, enc v) :: c))).
+      { intros k x Hin. apply He in Hin. destruct Hin as [Hin|Hin]; [inversion Hin; reflexivity|apply Hs; exact Hin]. }
+      destruct (memo_run keq enc evict (evict ((v, enc v) :: c)) r) as [xs c2] eqn:R.
+      specialize (IH _ Hs1). rewrite R in IH. cbn [fst snd] in *. destruct IH as [I1 I2].
+      split; [|exact I2]. rewrite I1. reflexivity.
+Qed.
+
+(* the condition is necessary: a cache that keeps the entry it has just made and is faithful on every
+   two-value run only ever identifies values that are written alike *)
+Lemma memo_faithful_needs_keys_respect_encoding keq enc :
+  (forall a b, fst (memo_run keq enc (fun c => c) [] [a; b]) = [enc a; enc b]) ->
+  forall a b, keq a b = true -> enc a = enc b.
+Proof.
+  intros H a b E. specialize (H a b). unfold memo_run, memo_cell in H. cbn [memo_find] in H.
+  rewrite E in H. cbn [fst] in H. inversion H. reflexivity.
+Qed.
